@@ -45,8 +45,10 @@ func main() {
 }
 
 var (
-	depthMu      sync.Mutex
-	maxDepthSeen int
+	depthMu         sync.Mutex
+	maxDepthSeen    int
+	copyOffBytesMax int
+	copyOffsetMax   uint64
 )
 
 type seedRepo struct {
@@ -166,8 +168,27 @@ func run(c *vf.Ctx) {
 		}
 	}
 
-	// ---- pack cases
+	// ---- a pair of blobs > 16 MiB, one stored as a delta of the other: copy offsets >= 2^24 (4 offset bytes)
 	var cases []*packCase
+	bigOK := false
+	if bp, err := packlab.NewBigPair(g, filepath.Join(c.Scratch, "bigpair"), "sha1"); err != nil {
+		c.Broken("big pair repository: %v", err)
+		return
+	} else if !bp.Deltified {
+		c.Count("bigdelta_skipped_git_did_not_deltify", 1)
+	} else {
+		truth, err := packlab.CatFileAll(g, bp.Dir)
+		if err != nil {
+			c.Broken("big pair ground truth: %v", err)
+			return
+		}
+		bigOK = true
+		brp := &seedRepo{Repo: bp.Repo, truth: truth, idx: nRepos, huge: true}
+		// the pack git repack wrote (OFS_DELTA), and the same delta re-used as REF_DELTA
+		cases = append(cases,
+			&packCase{repo: brp, kind: "bigpair", window: 10, depth: 10, ofs: true, level: -1, pack: packlab.ReadFile(packlab.PackFiles(bp.GitDir)[0]), desc: "bigpair repack window=10 depth=10 (OFS_DELTA, copy offsets >= 2^24)"},
+			&packCase{repo: brp, kind: "bigpair", window: 10, depth: 10, ofs: false, level: -1})
+	}
 	for _, rp := range repos {
 		r := c.Rand("cases", rp.idx)
 		if pf := packlab.PackFiles(rp.GitDir); len(pf) == 1 { // the pack fast-import wrote
@@ -222,6 +243,15 @@ func run(c *vf.Ctx) {
 
 	c.Extra("git_invocations", gitx.Calls.Load())
 	c.Extra("max_delta_depth_seen", maxDepthSeen)
+	c.Extra("delta_copy_offset_bytes_max", copyOffBytesMax)
+	c.Extra("delta_copy_offset_max", copyOffsetMax)
+	c.Floor("delta copy instructions with a 3-byte base offset (>= 64 KiB) present", c.Counter("deltas_with_copy_offset_of_3_or_more_bytes"), 1)
+	c.Floor("delta copy instructions of 0x10000 bytes present", c.Counter("delta_copy_ops_of_64KiB"), 1)
+	if bigOK {
+		c.Floor("packs whose deltas copy from base offsets >= 2^24 (4-byte copy offsets)", c.Counter("deltas_with_copy_offset_of_4_bytes"), 2)
+	} else {
+		c.Assume("git did not store the 17 MiB pair as a delta in this run: 4-byte copy offsets were not exercised (counted as bigdelta_skipped_git_did_not_deltify)")
+	}
 	c.Floor("packs evaluated", c.Counter("packs"), c.N(60, 320))
 	c.Floor("pack x mode evaluations", c.Counter("mode_runs"), c.N(280, 1500))
 	c.Floor("idx files compared byte-for-byte", c.Counter("idx_cmp"), c.N(120, 650))
@@ -256,6 +286,12 @@ func producePack(c *vf.Ctx, g *gitx.Git, pc *packCase, i int) error {
 	}
 	pc.desc = fmt.Sprintf("%s window=%d depth=%d ofs=%v level=%d tip=%s have=%s", pc.kind, pc.window, pc.depth, pc.ofs, pc.level, pc.tip, pc.have)
 	switch pc.kind {
+	case "bigpair":
+		res := gx.Run(rp.Dir, append(args, "--all")...) // re-uses the stored delta
+		if !res.OK() {
+			return fmt.Errorf("%s", res)
+		}
+		pc.pack = res.Out
 	case "full", "dup":
 		args = append(args, "--all", "--no-reuse-delta")
 		res := gx.Run(rp.Dir, args...)
@@ -399,6 +435,22 @@ func gitIndex(c *vf.Ctx, g *gitx.Git, pc *packCase, i int) (*gitView, error) {
 	es, err := packlab.WalkPack(pc.pack, hs)
 	if err != nil {
 		return nil, fmt.Errorf("independent pack walker fails on a git pack: %w", err)
+	}
+	for _, e := range es { // which copy-instruction encodings does this pack exercise?
+		if e.Type >= 6 {
+			st := packlab.DeltaCopyStats(e.Data)
+			c.Count("delta_copy_ops_of_64KiB", st.Size64KiBOps)
+			if st.MaxOffsetLen >= 3 {
+				c.Count("deltas_with_copy_offset_of_3_or_more_bytes", 1)
+			}
+			if st.MaxOffsetLen == 4 {
+				c.Count("deltas_with_copy_offset_of_4_bytes", 1)
+			}
+			depthMu.Lock()
+			copyOffBytesMax = max(copyOffBytesMax, st.MaxOffsetLen)
+			copyOffsetMax = max(copyOffsetMax, st.MaxOffset)
+			depthMu.Unlock()
+		}
 	}
 	if pc.kind == "thin" {
 		rp.thinOnce.Do(func() {
